@@ -52,6 +52,8 @@ type CHCase struct {
 	Via bool `json:"via,omitempty"`
 	// Scale variants (rare): Wide = the first task also depends on the glob big/*.c, which matches this many files;
 	// AllFail = every command of the first task (which then has a few hundred commands) is set to fail at the start
+	// Nofile (level L3 only): every invocation of the real binary runs with this open-file limit (RLIMIT_NOFILE)
+	Nofile  int    `json:"nofile,omitempty"`
 	Wide    int    `json:"wide,omitempty"`
 	AllFail bool   `json:"all_fail,omitempty"`
 	Ops     []CHOp `json:"ops"`
@@ -61,7 +63,7 @@ type CHCase struct {
 type cachehist struct{}
 
 // WantsL3: what the process exit status does with hundreds of failures is visible only in the real binary.
-func (cachehist) WantsL3(cc any) bool { return cc.(*CHCase).AllFail }
+func (cachehist) WantsL3(cc any) bool { return cc.(*CHCase).AllFail || cc.(*CHCase).Nofile > 0 }
 
 func init() { register(cachehist{}) }
 
@@ -86,7 +88,7 @@ var chLiteral = []string{"a.txt", "b.txt", "src/x.c", "src/n.h"}
 var chGlobs = []string{"*.txt", "src/*.c", "**/*.c", "src/**", "src/**/*.c", "{a,b}*.txt", "./*.txt", "./src/*.c", ".*", ".*.txt"}
 var chContents = []string{"1", "2", "3"}
 var chCwds = []string{"", "", "", "src", "src/sub"}
-var chExits = []int{1, 2, 127, 128, 255}
+var chExits = []int{1, 2, 127, 128, 255, 75, 126, 130, 137, 64, 78} // incl. sysexits (75 = EX_TEMPFAIL) and 128+signal
 
 func genProgram(r *Rng, maxTasks int) Program {
 	p := Program{Layout: r.Intn(6)}
@@ -233,6 +235,9 @@ func (cachehist) Gen(r *Rng, cfg GenConfig) any {
 	if cfg.Prop != "nowriters" && r.Chance(1, 150) {
 		c.Wide = Pick(r, []int{130, 513, 600, 1100})
 		c.Prog.Tasks[0].Deps = append(c.Prog.Tasks[0].Deps, Dep{"glob", "big/*.c"})
+	}
+	if (cfg.Prop == "C18" || cfg.Prop == "C01") && r.Chance(1, 40) {
+		c.Nofile = Pick(r, []int{32, 28})
 	}
 	if cfg.Prop == "C09" && r.Chance(1, 300) {
 		c.AllFail = true
@@ -502,7 +507,7 @@ func (cachehist) Gen(r *Rng, cfg GenConfig) any {
 // ---------------------------------------------------------------- execution
 
 // chDebris: names an interrupted or foreign writer may leave beside cache.json.
-var chDebris = []string{"cache.json.tmp", "cache.json~", "cache.json.bak", ".cache.json.swp", "cache.json.new", "cache.tmp", "cache.json.lock"}
+var chDebris = []string{"cache.json.tmp", "cache.json~", "cache.json.bak", ".cache.json.swp", "cache.json.new", "cache.tmp", "cache.json.lock", "lock", ".lock", "spok.lock"}
 
 type jsonResult struct {
 	Task    string `json:"task"`
@@ -531,6 +536,7 @@ type projState struct {
 	links      map[string]string // dependency files that are symbolic links: path -> target path (project relative)
 	fixedMtime bool
 	via        bool // invocations address the project as $HOME/via/proj
+	nofile     int  // level L3: RLIMIT_NOFILE of every invocation
 }
 
 // addr is the path under which invocations address the project.
@@ -821,6 +827,7 @@ func (cachehist) Exec(w *World, cc any, prop string) *Result {
 	if c.Wide > 0 {
 		res.count("probe:task_with_hundreds_of_dependency_files")
 	}
+	s.nofile = c.Nofile
 	if c.AllFail {
 		t := c.Prog.Tasks[0]
 		for i := 0; i < t.NCmd; i++ {
@@ -971,6 +978,10 @@ func (s *projState) judgeRun(res *Result, sched Sched, forceBefore bool, oi stri
 		classes = append(classes, s.stateClass(s.prog.Task(n)))
 	}
 	faults := NoFaults()
+	if s.nofile > 0 && w.Level == "L3" {
+		faults.NofileLimit = s.nofile
+		res.count("fault_fired:low_open_file_limit")
+	}
 	cacheRO := op.CacheRO && w.Level != "L3"
 	if cacheRO {
 		faults.WriteErrAll = "EACCES"
@@ -991,6 +1002,16 @@ func (s *projState) judgeRun(res *Result, sched Sched, forceBefore bool, oi stri
 		return true
 	}
 	if v.dupes {
+		// running a command twice is C03's business, but whatever was run: a command that exited non-zero
+		// must have failed the invocation
+		if prop == "C09" && len(v.failing) > 0 && !obs.Failed {
+			var fr []string
+			for t := range v.failing {
+				fr = append(fr, t)
+			}
+			sort.Strings(fr)
+			res.violate("C09", "failing-command-fails-invocation", "run:dupes", "%s: a command of task(s) %v exited non-zero (and was run more than once: %v) but the invocation succeeded", oi, fr, delta)
+		}
 		res.Abandoned = fmt.Sprintf("C03: a command ran twice in %s: %v", oi, delta)
 		return true
 	}
